@@ -114,7 +114,12 @@ def make_run(opname, uname, client):
     horizon = 3 * len(W) + 6
     lenient = "-warn" in opname
 
+    shared = client
+
     def run(ctx):
+        # a fresh client per execution: whatever an implementation keeps on
+        # its client cannot make executions depend on one another
+        client = shared if shared is not None else world.make_client(creds(), lambda p: b"")[0]
         memo = {}
         revealed = set()
 
@@ -191,6 +196,8 @@ def make_run(opname, uname, client):
 
         if isinstance(exc, world.Horizon):
             bad("request-horizon-reached", horizon=horizon)
+        if ename == "NeverCompletes":
+            bad("operation-never-completes")
         # an answer with fewer bindings than columns asked for (down to none)
         # reveals nothing for some column; the client may ask once more for it
         # (an error response reveals nothing either)
@@ -268,8 +275,7 @@ def shards(tier):
 
 
 def run_shard(params, acc):
-    client, _ = world.make_client(creds(), lambda p: b"")
-    run = make_run(params["op"], params["universe"], client)
+    run = make_run(params["op"], params["universe"], None)
     bound = params["bound"]
 
     def on_exec(ctx, obs, violations):
@@ -303,8 +309,7 @@ def run_shard(params, acc):
 
 
 def replay(case):
-    client, _ = world.make_client(creds(), lambda p: b"")
-    run = make_run(case["op"], case["universe"], client)
+    run = make_run(case["op"], case["universe"], None)
     _, obs, violations = explore.run_once(run, case["choices"])
     return violations
 
